@@ -80,6 +80,23 @@ def exhaustive_cases(tier):
     return out
 
 
+def hypotheses(ctx, suite, docs):
+    """the decidable hypotheses of the structural theorems (Coherent, IntervalOK) evaluated on the generated charts by the
+    compiled Lean definitions; a generated chart outside them is reported as a broken tie (the theorems say nothing about it)"""
+    lines = [case_line("tables", d, []) for d in docs]
+    out = []
+    for part in chunks(lines, 500): out += ctx.driver_lines("coherent", part, timeout=1800)
+    st = dict(charts=len(docs), coherent=sum(1 for x in out if "coh=1" in x), interval_ok=sum(1 for x in out if "ival=1" in x),
+              plain_transitions=sum(int(x.split("plain=")[1].split("/")[0]) for x in out if "plain=" in x),
+              transitions=sum(int(x.split("plain=")[1].split("/")[1]) for x in out if "plain=" in x))
+    for d, x in zip(docs, out):
+        if ("coh=1" not in x or "ival=1" not in x) and not any(p.endswith("hypotheses.txt") for p, _ in ctx.violations):
+            ctx.violation("hypotheses", suite, [case_line("tables", d, [])], found_input=False,
+                          detail="a generated (valid) chart is outside the hypotheses Coherent / IntervalOK of the structural theorems (%s): they say nothing about it\nchart: %s" % (x, charts.sexpr(d)))
+    ctx.add_suite(suite, **st)
+    return st
+
+
 def history_revisit_selfdriven(rng, n):
     """the same family for back-ends that are run without outside events (Promela): a boot state sends the whole
     event history to the session itself before the chart proper is entered"""
